@@ -153,7 +153,7 @@ class World:
         rng = self.rng
         files = self.all_paths(("file",))
         dirs = [os.path.join(self.src, it) for it in self.items] + self.all_paths(("dir",))
-        k = rng.randrange(12)
+        k = rng.randrange(14)
         if k == 0 and files:
             p = rng.choice(files)
             st = os.lstat(p)
@@ -214,6 +214,9 @@ class World:
             self.remember(newd)
             os.utime(p, ns=(st.st_atime_ns, st.st_mtime_ns))
             return "same identity, new size"
+        if k in (12, 13) and files:
+            if self.rename_over(rng.choice(files)):
+                return "renamed over, same size and mtime"
         if k == 10 and dirs:
             d = os.path.join(rng.choice(dirs), rng.choice(["d1", "d2", "newdir"]))
             if not os.path.lexists(d):
@@ -226,6 +229,23 @@ class World:
                 os.link(p, q)
                 return "hard link"
         return "none"
+
+    def rename_over(self, p):
+        """another file of the same size and the same mtime (to the nanosecond) is renamed over p: only the inode tells them apart"""
+        st = os.lstat(p)
+        data = open(p, "rb").read()
+        if not data or len(p.encode()) >= 3400:
+            return False
+        newd = bytes((b + 1) % 256 for b in data)
+        q = p + ".new"
+        with open(q, "wb") as f:
+            f.write(newd)
+        self.remember(newd)
+        os.chown(q, st.st_uid, st.st_gid)
+        os.chmod(q, stat.S_IMODE(st.st_mode))
+        os.utime(q, ns=(st.st_atime_ns, st.st_mtime_ns))
+        os.rename(q, p)
+        return True
 
     # ---- what a run reads -------------------------------------------------------------------------------------
     def allowed(self, item_index, rels):
